@@ -148,19 +148,22 @@ struct Variant {
     pre_a: &'static [&'static str],
     /// DDL on twin A after the history, just before probing
     late_a: &'static [&'static str],
+    /// preloads contain rows with NULL in column a (not for `late`: CREATE INDEX skips NULL keys, so the
+    /// ORDER BY probe would already fail on the empty history - KF-C10-02 - and hide the rest)
+    preload_nulls: bool,
 }
 const T_PK: &str = "CREATE TABLE t(id INT PRIMARY KEY, a INT, b TEXT)";
 const T_PLAIN: &str = "CREATE TABLE t(id INT, a INT, b TEXT)";
 const VARIANTS: &[Variant] = &[
-    Variant { name: "pk", flavor: Flavor::Pk, table_a: T_PK, table_b: T_PLAIN, pre_a: &[], late_a: &[] },
-    Variant { name: "uniq", flavor: Flavor::Uniq, table_a: "CREATE TABLE t(id INT, a INT UNIQUE, b TEXT)", table_b: T_PLAIN, pre_a: &[], late_a: &[] },
-    Variant { name: "sec", flavor: Flavor::A, table_a: T_PK, table_b: T_PK, pre_a: &["CREATE INDEX ia ON t(a)"], late_a: &[] },
-    Variant { name: "sec_nopk", flavor: Flavor::A, table_a: T_PLAIN, table_b: T_PLAIN, pre_a: &["CREATE INDEX ia ON t(a)"], late_a: &[] },
-    Variant { name: "comp", flavor: Flavor::A, table_a: T_PK, table_b: T_PK, pre_a: &["CREATE INDEX iab ON t(a, b)"], late_a: &[] },
-    Variant { name: "partial", flavor: Flavor::A, table_a: T_PK, table_b: T_PK, pre_a: &["CREATE INDEX ip ON t(a) WHERE a > 1"], late_a: &[] },
-    Variant { name: "text", flavor: Flavor::Text, table_a: T_PK, table_b: T_PK, pre_a: &["CREATE INDEX ib ON t(b)"], late_a: &[] },
-    Variant { name: "late", flavor: Flavor::A, table_a: T_PK, table_b: T_PK, pre_a: &[], late_a: &["CREATE INDEX ia ON t(a)"] },
-    Variant { name: "droplate", flavor: Flavor::A, table_a: T_PK, table_b: T_PK, pre_a: &["CREATE INDEX ia ON t(a)"], late_a: &["DROP INDEX ia"] },
+    Variant { name: "pk", flavor: Flavor::Pk, table_a: T_PK, table_b: T_PLAIN, pre_a: &[], late_a: &[], preload_nulls: true },
+    Variant { name: "uniq", flavor: Flavor::Uniq, table_a: "CREATE TABLE t(id INT, a INT UNIQUE, b TEXT)", table_b: T_PLAIN, pre_a: &[], late_a: &[], preload_nulls: true },
+    Variant { name: "sec", flavor: Flavor::A, table_a: T_PK, table_b: T_PK, pre_a: &["CREATE INDEX ia ON t(a)"], late_a: &[], preload_nulls: true },
+    Variant { name: "sec_nopk", flavor: Flavor::A, table_a: T_PLAIN, table_b: T_PLAIN, pre_a: &["CREATE INDEX ia ON t(a)"], late_a: &[], preload_nulls: true },
+    Variant { name: "comp", flavor: Flavor::A, table_a: T_PK, table_b: T_PK, pre_a: &["CREATE INDEX iab ON t(a, b)"], late_a: &[], preload_nulls: true },
+    Variant { name: "partial", flavor: Flavor::A, table_a: T_PK, table_b: T_PK, pre_a: &["CREATE INDEX ip ON t(a) WHERE a > 1"], late_a: &[], preload_nulls: true },
+    Variant { name: "text", flavor: Flavor::Text, table_a: T_PK, table_b: T_PK, pre_a: &["CREATE INDEX ib ON t(b)"], late_a: &[], preload_nulls: true },
+    Variant { name: "late", flavor: Flavor::A, table_a: T_PK, table_b: T_PK, pre_a: &[], late_a: &["CREATE INDEX ia ON t(a)"], preload_nulls: false },
+    Variant { name: "droplate", flavor: Flavor::A, table_a: T_PK, table_b: T_PK, pre_a: &["CREATE INDEX ia ON t(a)"], late_a: &["DROP INDEX ia"], preload_nulls: true },
 ];
 fn variant(name: &str) -> Option<&'static Variant> {
     VARIANTS.iter().find(|v| v.name == name)
@@ -277,7 +280,8 @@ fn text_of(i: usize, long: bool) -> String {
     }
 }
 /// INSERT statements of a preload (ids in non-monotonic order; integers share their 4-byte key prefixes)
-fn preload_sql(p: Preload, f: Flavor) -> Vec<String> {
+fn preload_sql(p: Preload, v: &Variant) -> Vec<String> {
+    let f = v.flavor;
     let row = |id: i64, a: Option<i64>, b: &str| format!("({id}, {}, '{b}')", a.map(|x| x.to_string()).unwrap_or("NULL".into()));
     match p {
         Preload::None => vec![],
@@ -286,7 +290,7 @@ fn preload_sql(p: Preload, f: Flavor) -> Vec<String> {
             let avals = [Some(0i64), Some(1), Some(2), Some(3), Some(4), Some(1), Some(2), Some(3), Some(2), None, Some(2), Some(1)];
             let rows: Vec<String> = (0..12)
                 .map(|i| {
-                    let a = if f == Flavor::Uniq { Some(100 + 20 * i as i64) } else { avals[i] };
+                    let a = if f == Flavor::Uniq { Some(100 + 20 * i as i64) } else if avals[i].is_none() && !v.preload_nulls { Some(3) } else { avals[i] };
                     row(ids[i], a, &text_of(i, false))
                 })
                 .collect();
@@ -299,7 +303,7 @@ fn preload_sql(p: Preload, f: Flavor) -> Vec<String> {
                 let p = (i * 277) % BIG_N; // 277 is coprime with 650: a permutation, far from monotonic
                 let a = if f == Flavor::Uniq {
                     Some(100 + 20 * p as i64)
-                } else if p % 50 == 49 {
+                } else if p % 50 == 49 && v.preload_nulls {
                     None
                 } else {
                     Some((p % 7) as i64)
@@ -488,20 +492,6 @@ impl Group {
     }
 }
 
-fn copy_dir(src: &Path, dst: &Path) -> std::io::Result<()> {
-    std::fs::create_dir_all(dst)?;
-    for e in std::fs::read_dir(src)? {
-        let e = e?;
-        let to = dst.join(e.file_name());
-        if e.file_type()?.is_dir() {
-            copy_dir(&e.path(), &to)?;
-        } else {
-            std::fs::copy(e.path(), &to)?;
-        }
-    }
-    Ok(())
-}
-
 /// one open twin database in its own directory (closed, then removed, on drop)
 struct Twin {
     db: Option<turdb::Database>,
@@ -525,66 +515,36 @@ impl Drop for Twin {
 
 struct Env {
     scratch: PathBuf,
-    /// templates of big preloads: (variant, twin) -> directory of a cleanly closed database
-    templates: HashMap<(String, char), PathBuf>,
     seq: u64,
     plant: bool,
 }
 impl Env {
     fn new(scratch: &Path, plant: bool) -> Env {
-        Env { scratch: scratch.to_path_buf(), templates: HashMap::new(), seq: 0, plant }
+        Env { scratch: scratch.to_path_buf(), seq: 0, plant }
     }
     fn setup_stmts(v: &Variant, twin: char, p: Preload) -> Vec<String> {
         let mut s = vec![if twin == 'A' { v.table_a.to_string() } else { v.table_b.to_string() }, U_DDL.to_string(), U_ROWS.to_string()];
         if twin == 'A' {
             s.extend(v.pre_a.iter().map(|x| x.to_string()));
         }
-        s.extend(preload_sql(p, v.flavor));
+        s.extend(preload_sql(p, v));
         s
     }
-    /// `direct` = build the database by executing the setup statements in this session (no reopen);
-    /// otherwise copy a cleanly closed template directory of the same setup and open it.
-    fn fresh(&mut self, v: &Variant, twin: char, p: Preload, direct: bool) -> Result<Twin, String> {
+    /// Build the twin by executing the setup statements in this session.  (Copying a closed template
+    /// directory and reopening it would be cheaper, but reopen resets TurDB's row-id counter at this
+    /// commit - the next INSERTs fail with "key already exists" - which is not C10's subject.)
+    fn fresh(&mut self, v: &Variant, twin: char, p: Preload) -> Result<Twin, String> {
         self.seq += 1;
         let name = format!("db{}_{}", twin, self.seq % 4);
-        if !direct {
-            let key = (format!("{}/{}", v.name, p.name()), twin);
-            if !self.templates.contains_key(&key) {
-                let tname = format!("tpl_{}_{}_{}", v.name, p.name(), twin);
-                let mut t = TestDb::create(&self.scratch, &tname)?;
-                for s in Env::setup_stmts(v, twin, p) {
-                    let r = t.exec(&s);
-                    if !r.ok() {
-                        return Err(format!("template setup `{}`: {}", vcore::util::clip(&s, 80), r.show()));
-                    }
-                }
-                t.close_reopen().map_err(|e| format!("template close: {e}"))?;
-                t.db = None;
-                t.keep();
-                let dir = t.dir.clone();
-                drop(t);
-                self.templates.insert(key.clone(), dir);
+        let mut t = TestDb::create(&self.scratch, &name)?;
+        for s in Env::setup_stmts(v, twin, p) {
+            let r = t.exec(&s);
+            if !r.ok() {
+                return Err(format!("setup `{}`: {}", vcore::util::clip(&s, 80), r.show()));
             }
-            let tpl = self.templates[&key].clone();
-            let dir = self.scratch.join(&name);
-            let _ = std::fs::remove_dir_all(&dir);
-            copy_dir(&tpl, &dir).map_err(|e| format!("copy template: {e}"))?;
-            match vcore::catch(|| turdb::Database::open(&dir).map_err(|e| format!("{e:#}"))) {
-                Ok(Ok(db)) => Ok(Twin { db: Some(db), dir }),
-                Ok(Err(e)) => Err(format!("open template copy: {e}")),
-                Err(p) => Err(format!("open template copy: PANIC {p}")),
-            }
-        } else {
-            let mut t = TestDb::create(&self.scratch, &name)?;
-            for s in Env::setup_stmts(v, twin, p) {
-                let r = t.exec(&s);
-                if !r.ok() {
-                    return Err(format!("setup `{}`: {}", vcore::util::clip(&s, 80), r.show()));
-                }
-            }
-            t.keep();
-            Ok(Twin { db: t.db.take(), dir: t.dir.clone() })
         }
+        t.keep();
+        Ok(Twin { db: t.db.take(), dir: t.dir.clone() })
     }
 }
 
@@ -650,15 +610,14 @@ fn run_history_inner(env: &mut Env, g: &mut Group, h: &[Op], skip: &[&str]) -> O
     let mut out = Outcome::default();
     let t_start = std::time::Instant::now();
     let v = g.v;
-    let direct = g.preload == Preload::None && h.len() <= 2;
-    let a = match env.fresh(v, 'A', g.preload, direct) {
+    let a = match env.fresh(v, 'A', g.preload) {
         Ok(t) => t,
         Err(e) => {
             out.setup_error = Some(format!("twin A: {e}"));
             return out;
         }
     };
-    let b = match env.fresh(v, 'B', g.preload, direct) {
+    let b = match env.fresh(v, 'B', g.preload) {
         Ok(t) => t,
         Err(e) => {
             out.setup_error = Some(format!("twin B: {e}"));
@@ -782,18 +741,65 @@ fn run_history_inner(env: &mut Env, g: &mut Group, h: &[Op], skip: &[&str]) -> O
 struct Pass {
     name: &'static str,
     ops: &'static [Op],
-    /// (quick, thorough) depth for preload none / p12 / p650
-    depth_small: (usize, usize),
-    depth_big: (usize, usize),
+    /// (quick, thorough) maximal history length for preload none / p12 / p650
+    depth: [(usize, usize); 3],
     /// probe operators not evaluated in this pass (each exclusion is justified by a listed finding)
     skip_probes: &'static [&'static str],
     /// variants not run in this pass
     skip_variants: &'static [&'static str],
     why: &'static str,
 }
+const TX: [Op; 5] = [Begin, Commit, Rollback, Savept, RollTo];
 const PASSES: &[Pass] = &[
-    Pass { name: "residual", ops: &[Ins1, Ins2, Ins3, InsM], depth_small: (1, 2), depth_big: (0, 0), skip_probes: &[], skip_variants: &[], why: "all probes including `col = v AND col > v`; inserts only" },
-    Pass { name: "full", ops: &ALL_OPS, depth_small: (3, 4), depth_big: (1, 2), skip_probes: &["eq-and-gt-same-col"], skip_variants: &[], why: "full alphabet" },
+    Pass {
+        name: "residual",
+        ops: &[Ins1, Ins2, Ins3, InsM],
+        depth: [(1, 2), (1, 2), (0, 1)],
+        skip_probes: &[],
+        skip_variants: &[],
+        why: "every probe including `col = v AND col > v` (KF-C10-01 fires on every non-empty table, so that probe is evaluated only here); inserts only",
+    },
+    Pass { name: "full", ops: &ALL_OPS, depth: [(2, 4), (2, 3), (1, 2)], skip_probes: &["eq-and-gt-same-col"], skip_variants: &[], why: "full alphabet; probe `col = v AND col > v` removed (KF-C10-01)" },
+    Pass {
+        name: "full-droplate",
+        ops: &ALL_OPS,
+        depth: [(3, 4), (2, 4), (0, 0)],
+        skip_probes: &["eq-and-gt-same-col"],
+        skip_variants: &["pk", "uniq", "sec", "sec_nopk", "comp", "partial", "text", "late"],
+        why: "full alphabet one level deeper on the variant whose index is dropped before probing (no index defect can prune it)",
+    },
+    Pass {
+        name: "ins-tx",
+        ops: &[Ins1, Ins2, InsM, TX[0], TX[1], TX[2], TX[3], TX[4]],
+        depth: [(4, 6), (4, 5), (2, 3)],
+        skip_probes: &["eq-and-gt-same-col"],
+        skip_variants: &[],
+        why: "no UPDATE / DELETE (KF-C10-03..08 break index maintenance for them) and no NULL (KF-C10-02): inserts in any key order under every transaction bracket",
+    },
+    Pass {
+        name: "ins-null",
+        ops: &[Ins1, Ins3, InsM, Begin, Commit, Rollback],
+        depth: [(3, 4), (3, 4), (1, 2)],
+        skip_probes: &["eq-and-gt-same-col", "orderby"],
+        skip_variants: &[],
+        why: "as ins-tx with NULL in the indexed column; ORDER BY probe removed (KF-C10-02: index-ordered scan omits NULL rows)",
+    },
+    Pass {
+        name: "unique-del",
+        ops: &[Ins1, Ins2, InsM, Upd2, Del1, Del2, DelVal, Reins1, Begin, Commit, Rollback],
+        depth: [(3, 4), (3, 4), (1, 2)],
+        skip_probes: &["eq-and-gt-same-col", "orderby"],
+        skip_variants: &["sec", "sec_nopk", "comp", "partial", "text", "late", "droplate"],
+        why: "PRIMARY KEY / UNIQUE variants without updates of the unique column (KF-C10-06): deletes, reinserts, non-key updates",
+    },
+    Pass {
+        name: "late-upd",
+        ops: &[Ins1, Ins2, InsM, Upd1, UpdAll, Begin, Commit, Rollback],
+        depth: [(3, 4), (3, 4), (1, 2)],
+        skip_probes: &["eq-and-gt-same-col"],
+        skip_variants: &["pk", "uniq", "sec", "sec_nopk", "comp", "partial", "text"],
+        why: "index created / dropped after the history: updates of the later-indexed column without deletes (KF-C10-04: CREATE INDEX indexes tombstoned rows) and without NULL (KF-C10-02)",
+    },
 ];
 fn pass_by_name(n: &str) -> &'static Pass {
     PASSES.iter().find(|p| p.name == n).unwrap_or(&PASSES[0])
@@ -947,6 +953,14 @@ struct C10;
 
 impl C10 {
     fn one(&self, ex: &mut Explorer, rep: &mut Reporter, pass: &'static Pass, v: &'static Variant, p: Preload, h: &[Op], report: bool, violating: &mut HashSet<Vec<Op>>, illegal: &mut HashSet<Vec<Op>>) {
+        if ex.ctx.opt("dry").is_some() {
+            // enumeration size only (development aid): nothing is executed
+            if report {
+                rep.case(vcore::util::hash_of(&(pass.name, v.name, p, h)), false);
+                rep.count(&format!("dry:{}:{}:len{}", pass.name, p.name(), h.len()), 1);
+            }
+            return;
+        }
         ex.group(v, p);
         let g = ex.groups.get_mut(&(v.name, p)).unwrap();
         let o = run_history(&mut ex.env, g, h, pass.skip_probes);
@@ -1013,7 +1027,8 @@ impl C10 {
                 continue;
             }
             rep.bound(&format!("pass:{}", pass.name), json!({"ops": pass.ops.iter().map(|o| o.name()).collect::<Vec<_>>(), "why": pass.why,
-                "depth_none_p12": ctx.tier.pick(pass.depth_small.0, pass.depth_small.1), "depth_p650": ctx.tier.pick(pass.depth_big.0, pass.depth_big.1)}));
+                "depth_none": ctx.tier.pick(pass.depth[0].0, pass.depth[0].1), "depth_p12": ctx.tier.pick(pass.depth[1].0, pass.depth[1].1), "depth_p650": ctx.tier.pick(pass.depth[2].0, pass.depth[2].1),
+                "variants": VARIANTS.iter().filter(|v| !pass.skip_variants.contains(&v.name)).map(|v| v.name).collect::<Vec<_>>(), "probes_not_evaluated": pass.skip_probes}));
             for v in VARIANTS {
                 if only_variant.as_deref().map(|x| x != v.name).unwrap_or(false) || pass.skip_variants.contains(&v.name) {
                     continue;
@@ -1022,58 +1037,35 @@ impl C10 {
                     if only_preload.as_deref().map(|x| x != p.name()).unwrap_or(false) {
                         continue;
                     }
-                    let depth = depth_override.unwrap_or(if p == Preload::P650 { ctx.tier.pick(pass.depth_big.0, pass.depth_big.1) } else { ctx.tier.pick(pass.depth_small.0, pass.depth_small.1) });
+                    let di = match p {
+                        Preload::None => 0,
+                        Preload::P12 => 1,
+                        Preload::P650 => 2,
+                    };
+                    let depth = depth_override.unwrap_or(ctx.tier.pick(pass.depth[di].0, pass.depth[di].1));
                     let mut violating: HashSet<Vec<Op>> = HashSet::new();
                     let mut illegal: HashSet<Vec<Op>> = HashSet::new();
-                    // length 0 and 1: executed by every worker (needed for pruning), reported by the owner only
+                    // the empty history (initial state = preload): one owner; it is not a prunable prefix
                     unit += 1;
-                    let own0 = ctx.mine(unit);
-                    self.one(&mut ex, rep, pass, v, p, &[], own0, &mut violating, &mut illegal);
-                    if depth >= 1 && !violating.contains(&vec![]) {
-                        for &o1 in pass.ops {
-                            let h = [o1];
-                            if !wellformed(&h, v.flavor) && !matches!(o1, Begin) {
-                                continue;
-                            }
-                            if matches!(o1, Begin) {
-                                continue; // [Begin] alone reaches no new state; it is a prefix only
-                            }
-                            unit += 1;
-                            let own = ctx.mine(unit);
-                            self.one(&mut ex, rep, pass, v, p, &h, own, &mut violating, &mut illegal);
-                        }
-                    } else if violating.contains(&vec![]) {
-                        if own0 {
-                            rep.pruned(1);
-                        }
-                        continue;
+                    if ctx.mine(unit) {
+                        self.one(&mut ex, rep, pass, v, p, &[], true, &mut violating, &mut illegal);
+                        violating.clear();
                     }
-                    // length >= 2: ownership by 2-op prefix, lengths ascending
-                    let mut owned: Vec<[Op; 2]> = Vec::new();
+                    // ownership by first operation: the whole subtree below [o1] belongs to one worker, so every
+                    // prefix verdict needed for stop-at-divergence is known locally; lengths ascending
+                    let mut owned: Vec<Op> = Vec::new();
                     for &o1 in pass.ops {
-                        for &o2 in pass.ops {
-                            let st1 = tx_step(0, None, o1);
-                            let Some(s1) = st1 else { continue };
-                            if tx_step(s1, Some(o1), o2).is_none() {
-                                continue;
-                            }
-                            unit += 1;
-                            if ctx.mine(unit) {
-                                owned.push([o1, o2]);
-                            }
+                        if tx_step(0, None, o1).is_none() {
+                            continue;
+                        }
+                        unit += 1;
+                        if ctx.mine(unit) {
+                            owned.push(o1);
                         }
                     }
-                    for len in 2..=depth {
-                        for p2 in &owned {
-                            let mut h = p2.to_vec();
-                            if violating.contains(&h[..1]) {
-                                rep.pruned(count_extensions(pass, v.flavor, &h, len));
-                                continue;
-                            }
-                            if illegal.contains(&h[..1]) {
-                                rep.count("histories_outside_unique_alphabet", count_extensions(pass, v.flavor, &h, len));
-                                continue;
-                            }
+                    for len in 1..=depth {
+                        for &o1 in &owned {
+                            let mut h = vec![o1];
                             self.extend(&mut ex, rep, pass, v, p, &mut h, len, &mut violating, &mut illegal, &mut since_check);
                             if rep_capped(rep) {
                                 return;
@@ -1118,7 +1110,9 @@ impl C10 {
         }
         // h is a proper prefix: stop at divergence / outside the alphabet
         if violating.contains(h.as_slice()) {
-            rep.pruned(count_extensions(pass, v.flavor, h, len));
+            let n = count_extensions(pass, v.flavor, h, len);
+            rep.pruned(n);
+            rep.count(&format!("pruned:{}", pass.name), n);
             return;
         }
         if illegal.contains(h.as_slice()) {
@@ -1235,6 +1229,10 @@ fn debug_sql(script: &str) {
             println!("reopen: {:?}", t.reopen());
             continue;
         }
+        if s == "@close_reopen" {
+            println!("close_reopen: {:?}", t.close_reopen());
+            continue;
+        }
         if let Some(q) = s.strip_prefix("@x ") {
             println!("EXPLAIN {q}\n{}", explain(t.db(), q).unwrap_or("<err>".into()));
             continue;
@@ -1256,38 +1254,21 @@ fn debug_sql(script: &str) {
 fn bench() {
     vcore::quiet_panics();
     let base = std::path::PathBuf::from(format!("/dev/shm/turdb_verif/c10bench_{}", std::process::id()));
-    let v = variant("sec").unwrap();
     let mut env = Env::new(&base, false);
-    let n = 50;
-    let t0 = std::time::Instant::now();
-    for _ in 0..n {
-        let t = TestDb::create(&base, "x").unwrap();
-        drop(t);
-    }
-    println!("create+drop: {} us", t0.elapsed().as_micros() / n);
-    let t0 = std::time::Instant::now();
-    let mut keep = Vec::new();
-    for _ in 0..n {
-        let t = env.fresh(v, 'A', Preload::None, true).unwrap();
-        keep.push(t);
-        keep.clear();
-    }
-    println!("fresh(sec,A,none)+drop: {} us", t0.elapsed().as_micros() / n);
-    let t0 = std::time::Instant::now();
-    for _ in 0..n {
-        let t = env.fresh(v, 'A', Preload::None, false).unwrap();
-        drop(t);
-    }
-    println!("fresh(sec,A,p650 template copy)+drop: {} us", t0.elapsed().as_micros() / n);
-    let t = env.fresh(v, 'A', Preload::None, true).unwrap();
-    for s in ["CREATE TABLE x1(a INT)", "CREATE INDEX ix1 ON x1(a)", "INSERT INTO x1 VALUES (1)", "SELECT * FROM x1", "DROP INDEX ix1"] {
+    for (vn, p) in [("sec", Preload::None), ("sec", Preload::P12), ("sec", Preload::P650), ("text", Preload::P650)] {
+        let v = variant(vn).unwrap();
+        let n = 20;
         let t0 = std::time::Instant::now();
-        let r = t.exec(s);
-        println!("{s}: {} us {}", t0.elapsed().as_micros(), r.class());
+        for _ in 0..n {
+            let t = env.fresh(v, 'A', p).unwrap();
+            drop(t);
+        }
+        println!("fresh({vn},A,{})+drop: {} us", p.name(), t0.elapsed().as_micros() / n);
+        let t = env.fresh(v, 'A', p).unwrap();
+        for e in std::fs::read_dir(t.dir.join("root")).into_iter().flatten().flatten() {
+            println!("   {:?} {} bytes", e.file_name(), e.metadata().map(|m| m.len()).unwrap_or(0));
+        }
     }
-    let t0 = std::time::Instant::now();
-    drop(t);
-    println!("drop: {} us", t0.elapsed().as_micros());
     let _ = std::fs::remove_dir_all(&base);
 }
 
